@@ -54,6 +54,8 @@ structure St where
   digests : Std.HashMap String String := {}      -- reference content digest per merge output name
   vcaches : Std.HashMap String VCache := {}
   handles : Std.HashMap String (String × Name × Option (List Nat) × Bool × Bool) := {}   -- seg, field, except, filtering, has index
+  badDictFile : Std.HashMap String (List Name) := {}   -- files whose term dictionary of these fields no longer loads (`corruptdict`)
+  badDictSeg : Std.HashMap String (List Name) := {}    -- the segments opened from them
 
 def St.seg? (st : St) (n : String) : Option Seg := (st.segs.get? n).map (·.1)
 
@@ -218,6 +220,9 @@ def queryObs (st : St) (c : Cmd) : St × Verdict :=
   | none => (st, .exact "scripterror:noseg")
   | some (s, tag) =>
     let st := specCheck st s c
+    -- a field whose dictionary no longer loads: term-level calls on it fail, everything else answers
+    if (c.arg 0 == "post" || c.arg 0 == "dict" || c.arg 0 == "dictpair") &&
+        ((st.badDictSeg.getD (c.arg 1) []).contains (strBytes (c.arg 2))) then (st, .exact "err:other") else
     match c.arg 0 with
     | "count" => (st, .exact (toString s.numDocs))
     | "fields" => (st, .exact (strList (s.fieldNames.map nameStr)))
@@ -453,10 +458,23 @@ def commandObs (st : St) (c : Cmd) : St × Verdict :=
       | some s => { c with kv := [("docs", toString s.numDocs), ("mode", toString s.chunkMode)] ++ c.kv.filter (fun p => p.1 != "docs" && p.1 != "mode") }
       | none => c
     (st, .pred (footerCheck c') "footer: docs, chunk mode, version 16, CRC-32 of all preceding bytes")
+  | "corruptdict" =>
+    match st.files.get? (c.arg 1) with
+    | none => (st, .exact "scripterror:nofile")
+    | some s =>
+      let fld := strBytes (c.arg 2)
+      match s.field? fld with
+      | none => (st, .exact "nodict")
+      | some f =>
+        if f.terms.isEmpty then (st, .exact "scripterror:notermsinfield") else
+        ({ st with files := st.files.insert (c.arg 0) s,
+                   fileBatch := (match st.fileBatch.get? (c.arg 1) with | some b => st.fileBatch.insert (c.arg 0) b | none => st.fileBatch.erase (c.arg 0)),
+                   badDictFile := st.badDictFile.insert (c.arg 0) (fld :: st.badDictFile.getD (c.arg 1) []) }, .exact "ok")
   | "open" =>
     match st.files.get? (c.arg 1) with
     | none => (st, .exact "scripterror:nofile")
     | some s => ({ st with segs := st.segs.insert (c.arg 0) (s, st.nextTag), nextTag := st.nextTag + 1,
+                           badDictSeg := (match st.badDictFile.get? (c.arg 1) with | some l => st.badDictSeg.insert (c.arg 0) l | none => st.badDictSeg.erase (c.arg 0)),
                            refs := st.refs.insert (c.arg 0) {},
                            segBatch := (match st.fileBatch.get? (c.arg 1) with | some b => st.segBatch.insert (c.arg 0) b | none => st.segBatch.erase (c.arg 0)),
                            d3 := if st.d3.contains (c.arg 1) then st.d3.insert (c.arg 0) true else st.d3 }, .exact "ok")
@@ -468,6 +486,9 @@ def commandObs (st : St) (c : Cmd) : St × Verdict :=
     let segs := names.filterMap st.seg?
     if segs.length ≠ names.length then (st, .exact "scripterror:noseg") else
     let drops := dropsOf c names.length
+    -- an input with a dictionary that does not load: the merge fails and leaves nothing
+    if names.any (fun n => !(st.badDictSeg.getD n []).isEmpty) then
+      (st, .pred (fun g => g.startsWith "err:other file=0") "err:other file=0 (an input's dictionary does not load)") else
     let mode := c.nat "mode" st.mode
     -- the same merge repeated under faults or cancellation is computed once
     let memoKey := s!"{c.getD "segs" "-"}|{c.getD "drops" ""}|{mode}|{names.map (fun n => ((st.segs.get? n).map (·.2)).getD 0)}"
